@@ -94,4 +94,9 @@ XLongFails(o) ==
   IN   (IF o.np = M + 1 THEN {} ELSE {"thin_count"})
   \cup (IF o.first = o.s /\ o.last = o.e THEN {} ELSE {"thin_end"})
   \cup (IF \A i \in 1..Len(o.samples) : SampleOK(o.samples[i]) THEN {} ELSE {"thin_distance"})
+\* very wide strokes on long lines (event "hugestroke"): a prefix of `asked` pixels of pixels() was pulled.  The stroke
+\* contains the thin line (`thin` points), so it is not shorter than min(asked, thin); no pixel of the prefix repeats
+HugeStrokeFails(o) ==
+       (IF o.n >= (IF o.asked < o.thin THEN o.asked ELSE o.thin) THEN {} ELSE {"stroke_has_fewer_pixels_than_the_thin_line"})
+  \cup (IF o.dup = 0 THEN {} ELSE {"stroke_pixel_repeated"})
 =============================================================================
